@@ -329,6 +329,33 @@ def replay(data):
                 cs = cfg['cache_size']
                 if cs is not None and cache_len(top) > cs:
                     bad.append('cache bound exceeded')
+            if not bad and cfg['tol']:
+                # the symbolic run rounds exact rationals, the library rounds binary floats: which grid point trips a
+                # rounding-dependent defect can differ.  Confirm on floats with the same query shape shifted over the grid.
+                import math as _m
+                grid = 10.0 ** int(_m.log10(cfg['tol']))
+                qa, qb = inp['q0a'], inp['q0b']
+                n = int((t1 - t0) / grid) + 1
+                cands = [(qa + j * grid, qb + j * grid) for j in range(-n, n + 1)]
+                # ... and the same query LENGTH slid over a lattice ten times finer than the grid
+                fine = grid / 10.0
+                cands += [(t0 + i * fine, t0 + i * fine + (qb - qa) + k * fine) for k in range(0, 5) for i in range(int((t1 - t0) / fine) + 1)]
+                for j, (a_, b_) in enumerate(cands[:1500]):
+                    if a_ < t0 or b_ > t1:
+                        continue
+                    fresh = (torchsde.BrownianTree(t0=t0, w0=torch.zeros(size, dtype=torch.float64), t1=t1, entropy=cfg['entropy'], tol=cfg['tol'])
+                             if cfg['wrapper'] == 'tree' else
+                             torchsde.BrownianInterval(t0=t0, t1=t1, size=size, dtype=torch.float64, entropy=cfg['entropy'], levy_area_approximation=levy,
+                                                       cache_size=cfg['cache_size'], dt=cfg['dt'], tol=cfg['tol'], halfway_tree=cfg['halfway']))
+                    try:
+                        fresh(a_, b_, **kw)
+                    except RuntimeError as e:
+                        if 'must respect ta <= tb' not in str(e):
+                            bad.append(f'query ({a_}, {b_}): RuntimeError {e}')
+                            break
+                    except RecursionError:
+                        bad.append(f'query ({a_}, {b_}) (the counterexample query slid along the rounding grid): RecursionError with the default recursion limit')
+                        break
         else:
             K = r['a']; step = inp['h']
             worst = {}
